@@ -10,4 +10,5 @@ See DESIGN.md section 3.1-3.3.
 """
 from .engine import (Engine, PathEnd, HarnessError, CheckFailed, SymSrc, ConcSrc, explore, replay_inputs,
                      ExploreResult)
-from .proxies import SymBool, SymInt, SymReal, SymChoice, SymSet, is_sym, sym_ite
+from .proxies import (SymBool, SymInt, SymReal, SymChoice, SymSet, is_sym, sym_ite, ssize, scontains, snot, sor,
+                      sand)
